@@ -1,6 +1,7 @@
 package main
 
 import (
+	"sync/atomic"
 	"net"
 	"net/http"
 	"net/http/httptest"
@@ -50,3 +51,28 @@ func dialRetry(network, addr string) (net.Conn, error) {
 	}
 	return nil, err
 }
+
+// swapServer is one real HTTP server per child process whose handler is replaced for every case, so that thousands
+// of cases do not bind thousands of listeners.
+type swapServer struct {
+	srv *httptest.Server
+	cur atomic.Pointer[http.Handler]
+	URL string
+}
+
+func newSwapServer() *swapServer {
+	s := &swapServer{}
+	s.srv = newTestServer(http.HandlerFunc(func(w http.ResponseWriter, r *http.Request) {
+		if h := s.cur.Load(); h != nil {
+			(*h).ServeHTTP(w, r)
+			return
+		}
+		w.WriteHeader(http.StatusServiceUnavailable)
+	}))
+	s.URL = s.srv.URL
+	return s
+}
+
+func (s *swapServer) set(h http.Handler) { s.cur.Store(&h) }
+func (s *swapServer) Close()             { s.srv.Close() }
+func (s *swapServer) addr() string       { return s.srv.Listener.Addr().String() }
